@@ -26,6 +26,10 @@ type panicSpec struct {
 	// Invariants: field-length invariants len(F) <= K, each proved by
 	// induction over all stores to F and then usable as a fact.
 	Invariants []lenInv
+	// Only: when set, only these functions are audited (no call-graph traversal).
+	Only []*ssa.Function
+	// TableFn: additional table rows matched by function origin (all instantiations of a generic function) and site description.
+	TableFn func(fn *ssa.Function, desc string) (string, bool)
 }
 
 // reachableRepo returns the repository functions reachable from the entries.
@@ -85,7 +89,12 @@ func rulePanic(p *Prog, r *Report, sp panicSpec) {
 			return
 		}
 	}
-	fns := p.reachableRepo(sp.Entries)
+	var fns []*ssa.Function
+	if sp.Only != nil {
+		fns = sp.Only
+	} else {
+		fns = p.reachableRepo(sp.Entries)
+	}
 	lp := newLinProver(p, sp.Invariants)
 	for _, inv := range sp.Invariants {
 		ok, at, n := lp.proveInvariant(inv)
@@ -113,6 +122,10 @@ func rulePanic(p *Prog, r *Report, sp panicSpec) {
 				continue
 			}
 		}
+		if sp.Only != nil && r.PanicAudited[fn] {
+			continue // already audited by the property's own panic rule
+		}
+		r.PanicAudited[fn] = true
 		nfn++
 		r.Func(funcName(fn))
 		pv := &prover{p: p, fn: fn, lp: lp, factCache: map[*ssa.BasicBlock][]Atom{}}
@@ -143,6 +156,12 @@ func rulePanic(p *Prog, r *Report, sp panicSpec) {
 				usedRows[row] = true
 				r.OK(key, "R-PANIC", p.InstrPos(in), "table: "+why)
 				return
+			}
+			if sp.TableFn != nil {
+				if why, listed := sp.TableFn(fn, desc); listed {
+					r.OK(key, "R-PANIC", p.InstrPos(in), "table: "+why)
+					return
+				}
 			}
 			bad++
 			r.Fail(key, "R-PANIC", p.InstrPos(in), fmt.Sprintf("unproven potential panic (%s) in %s, reachable from %s; facts here: %s", kind, funcName(fn), entryNames(sp.Entries), atomsString(pv.facts(in.Block()))))
@@ -441,6 +460,12 @@ func sameValD(a, b ssa.Value, d int) bool {
 	if d > 8 || a == nil || b == nil {
 		return false
 	}
+	// x.GetF() and x.F denote the same value wherever x.F is evaluated at all
+	// (the generated getter only differs for a nil receiver, for which the field
+	// access would already have failed)
+	if getterVsField(a, b, d) || getterVsField(b, a, d) {
+		return true
+	}
 	switch x := a.(type) {
 	case *ssa.Const:
 		y, ok := b.(*ssa.Const)
@@ -536,4 +561,24 @@ func isIOCount(x *ssa.Extract) bool {
 		name = f.Name()
 	}
 	return name == "Read" || name == "Write" || name == "ReadFull" || name == "ReadAtLeast"
+}
+
+func getterVsField(g, f ssa.Value, d int) bool {
+	c, ok := g.(*ssa.Call)
+	if !ok || len(c.Call.Args) != 1 || c.Call.StaticCallee() == nil {
+		return false
+	}
+	gf := getterField(c.Call.StaticCallee())
+	if gf == nil {
+		return false
+	}
+	u, ok := f.(*ssa.UnOp)
+	if !ok || u.Op != token.MUL {
+		return false
+	}
+	fa, ok := u.X.(*ssa.FieldAddr)
+	if !ok || fieldVar(fa.X.Type(), fa.Field) != gf {
+		return false
+	}
+	return sameValD(c.Call.Args[0], fa.X, d+1)
 }
